@@ -22,6 +22,8 @@ import traceback
 VERIF = os.path.dirname(os.path.dirname(os.path.abspath(__file__)))
 REPO = os.environ.get("VERIF_REPO", "/repo")
 PY = os.path.join(VERIF, ".venv", "bin", "python")
+if not os.path.exists(PY):
+    PY = "/verif/.venv/bin/python"      # snapshot worktrees (vp run) reuse the overlay built by setup.sh
 PLAIN_PY = "/venv/bin/python"
 
 REGISTRY = {}   # property id -> list of Obligation
